@@ -43,6 +43,7 @@ def exec_job(job):
         return [e]
 
     def ask(ev):
+        nonlocal b, t
         try:
             ev["rets"] = [bool(b.shadow_of(t, skip=s)) for s in SKIPS]
         except Exception as ex:  # noqa
@@ -56,7 +57,18 @@ def exec_job(job):
         mem = cur[m["who"]][m["fld"]]
         e2 = dict(e, i=k, exc="", rets=[False] * 5)
         try:
-            if m["op"] == "append":
+            if m["op"] == "rebuild":      # the same entry built again (members are part of it): same answers expected
+                if m["how"] == "copy":
+                    ace = ace.copy()
+                elif m["how"] == "data":
+                    ace = Ace(**ace.data())
+                else:
+                    ace.line = ace.line
+                if m["who"] == "b":
+                    b = ace
+                else:
+                    t = ace
+            elif m["op"] == "append":
                 addr.items.append(Address(m["text"], platform=plat))
                 mem.append(m["text"])
             elif m["op"] == "del":
@@ -160,7 +172,7 @@ def rand_port(rng, allow_multi):
     if not op:
         return None
     if op in ("lt", "gt"):
-        return [op, [rng.choice([1, 2, 1023, 1024, 65534, 65535, rng.randint(1, 65535)])]]
+        return [op, [rng.choice([0, 1, 2, 1023, 1024, 65534, 65535, rng.randint(1, 65535)])]]
     if op == "range":
         a = rng.choice([1, 80, 1024, rng.randint(1, 65000)])
         return [op, sorted([a, min(65535, a + rng.choice([0, 1, 10, 1000, 60000]))])]
@@ -259,10 +271,39 @@ def random_jobs(rng, n, tid0, groups=True):
                     w = rand_w(rng)
                     muts.append(dict(who=who, fld=fld, op=op, idx=rng.randrange(n_) if n_ else 0,
                                      text=rng.choice(spellings_ace(w, plat) + (["any"] if rng.random() < 0.3 else []))))
+        muts = muts[:2]
+        if rng.random() < 0.25:
+            muts.insert(rng.randint(0, len(muts)), dict(who=rng.choice("bt"), fld="smem", op="rebuild", how=rng.choice(["copy", "line", "data"])))
         if muts:
-            job["muts"] = muts[:2]
+            job["muts"] = muts
             job["origin"] = "random-history"
         jobs.append(job)
+        t += 1
+    return jobs
+
+
+def crossed_jobs(rng, n, tid0):
+    """both addresses of the bottom entry are groups; the members of one side fit the top's *other* side, one member of
+    the other side does not fit: the honest answer is False; then the bottom (or top) is built again and asked again"""
+    jobs, t = [], tid0
+    for _ in range(n):
+        plat = rng.choice(["ios", "nxos"])
+        kw = "addrgroup " if plat == "nxos" else "object-group "
+        act, proto = rng.choice(["permit", "deny"]), rng.choice(["ip", "ip", "tcp", "udp", "icmp"])
+        w = rand_w(rng)
+        inside = [rng.choice(spellings_ace(rng.choice([w, narrow_w(rng, w)]), plat)) for _ in range(rng.randint(1, 2))]
+        mixed = [rng.choice(spellings_ace(x, plat)) for x in [narrow_w(rng, w)] * rng.randint(0, 1) + [rand_w(rng)]]
+        wide = rng.choice(["any", "any", rng.choice(spellings_ace(w, plat))])
+        if rng.random() < 0.5:     # top constrains the destination
+            top = dict(line=f"{act} {proto} {wide} {rng.choice(spellings_ace(w, plat))}", smem=[], dmem=[])
+            bot = dict(line=f"{act} {proto} {kw}GS {kw}GD", smem=inside, dmem=mixed)
+        else:                      # top constrains the source
+            top = dict(line=f"{act} {proto} {rng.choice(spellings_ace(w, plat))} {wide}", smem=[], dmem=[])
+            bot = dict(line=f"{act} {proto} {kw}GS {kw}GD", smem=mixed, dmem=inside)
+        muts = [dict(who="b", fld="smem", op="rebuild", how=rng.choice(["copy", "line", "data"]))]
+        if rng.random() < 0.3:
+            muts.append(dict(who="t", fld="smem", op="rebuild", how=rng.choice(["copy", "line"])))
+        jobs.append(dict(tid=t, plat=plat, b=bot, t=top, origin="crossed-rebuilt", muts=muts))
         t += 1
     return jobs
 
@@ -284,6 +325,8 @@ def run_shadow(prop, tier, seed, groups):
     pairs = core.cap(pairs, 5000 if tier == "quick" else 80000, random.Random(seed + 6))
     jobs = from_pairs(rng, pairs, 1, windows())
     jobs += random_jobs(rng, 6000 if tier == "quick" else 150000, len(jobs) + 1, groups)
+    if groups:
+        jobs += crossed_jobs(rng, 400 if tier == "quick" else 10000, len(jobs) + 1)
     ev_lists = core.pmap(exec_job, jobs)
     events = [e for evs in ev_lists for e in evs]
     verdicts, vstats = core.validate("Trace_Shadow", events)
